@@ -266,7 +266,9 @@ func vfWRun(t *testing.T, c vfWConfig) vfWOut {
 			o := vfWObs{ID: r.ID, Headers: map[string][]string{}, Baseline: base.Headers, Backend: backendHost}
 			tag := fmt.Sprintf("v%d", r.ID)
 			st, body, err := do(r, tag)
-			if err != nil {
+			if err != nil && strings.Contains(err.Error(), "stream error") {
+				o.Err = "h2: stream reset: " + err.Error() // the server reset this request's stream, the connection lives on
+			} else if err != nil {
 				o.Err = err.Error()
 			} else {
 				o.Status, o.Body = st, body
@@ -322,7 +324,7 @@ func vfWRun(t *testing.T, c vfWConfig) vfWOut {
 			b.WriteString("\r\n")
 			st, body, err := send(b.String(), r.Method)
 			if err != nil {
-				o.Err = err.Error()
+				o.Err = "h1: " + err.Error() // on a connection whose baseline request was served a moment ago
 				out.Obs = append(out.Obs, o)
 				tc.Close()
 				if tc, err = dial("http/1.1"); err != nil {
